@@ -234,7 +234,7 @@ def run_case(i, rng, rec, tier, state):
     # the same angles in the other forms an "array of angles" takes: integer arrays (whole radians), lists and tuples
     ints = rng.integers(-12, 13, size=12)
     forms = [th, th[(th >= 0) & (th < 2 * np.pi)], th[:1], ints.astype(np.int64), ints.astype(np.int32),
-             [int(v) for v in ints[:6]], th[:16].tolist(), tuple(th[16:24].tolist())]
+             [int(v) for v in ints[:6]], th[:16].tolist(), tuple(th[16:24].tolist())] + [a for _, a in points.layouts(th[24:48])]
     for arr in forms:
         rec.cls("angles:" + type(arr).__name__ + (":" + arr.dtype.kind if isinstance(arr, np.ndarray) else
                                                   ":" + type(arr[0]).__name__ if len(arr) else ""))
